@@ -9,11 +9,11 @@ theorem chunk_roundtrip (c : Chunk) (h : wfChunk c = true) : RoundTrips c := by
   cases c with
   | data iData u b e i tsn si ssn mid fsn ppi ud =>
     cases iData
-    · simp only [wfChunk, Bool.false_eq_true, ↓reduceIte, Bool.and_eq_true, decide_eq_true_eq, fits_iff] at h
+    · simp only [wfChunk, Bool.false_eq_true, ↓reduceIte, Bool.and_eq_true, decide_eq_true_eq, fitsV_iff] at h
       obtain ⟨⟨h1, h2⟩, h3⟩ := h
       subst h1 h2
       exact data_roundtrip u b e i tsn si ssn ppi ud (by omega)
-    · simp only [wfChunk, ↓reduceIte, Bool.and_eq_true, decide_eq_true_eq, fits_iff] at h
+    · simp only [wfChunk, ↓reduceIte, Bool.and_eq_true, decide_eq_true_eq, fitsV_iff] at h
       obtain ⟨⟨h1, h2⟩, h3⟩ := h
       subst h1
       refine idata_roundtrip u b e i tsn si mid fsn ppi ud ?_ (by omega)
@@ -29,7 +29,7 @@ theorem chunk_roundtrip (c : Chunk) (h : wfChunk c = true) : RoundTrips c := by
     subst h1
     exact init_roundtrip true c h2
   | sack f cum arwnd gaps dups =>
-    simp only [wfChunk, fits_iff] at h
+    simp only [wfChunk, fitsV_iff] at h
     exact sack_roundtrip f cum arwnd gaps dups h
   | heartbeat ps =>
     match ps, h with
@@ -47,22 +47,22 @@ theorem chunk_roundtrip (c : Chunk) (h : wfChunk c = true) : RoundTrips c := by
       simp only [wfChunk, fits_iff] at h
       exact heartbeatAck_roundtrip f i (by omega)
   | abort cs =>
-    simp only [wfChunk, Bool.and_eq_true, List.all_eq_true, fits_iff] at h
+    simp only [wfChunk, Bool.and_eq_true, List.all_eq_true, fitsV_iff] at h
     exact abort_roundtrip cs h.1 (by omega)
   | error cs =>
-    simp only [wfChunk, Bool.and_eq_true, List.all_eq_true, fits_iff] at h
+    simp only [wfChunk, Bool.and_eq_true, List.all_eq_true, fitsV_iff] at h
     exact error_roundtrip cs h.1 (by omega)
   | shutdown f cum => exact shutdown_roundtrip f cum
-  | shutdownAck f raw => simp only [wfChunk, fits_iff] at h; exact shutdownAck_roundtrip f raw (by omega)
-  | shutdownComplete f raw => simp only [wfChunk, fits_iff] at h; exact shutdownComplete_roundtrip f raw (by omega)
-  | cookieEcho f raw => simp only [wfChunk, fits_iff] at h; exact cookieEcho_roundtrip f raw (by omega)
-  | cookieAck f raw => simp only [wfChunk, fits_iff] at h; exact cookieAck_roundtrip f raw (by omega)
+  | shutdownAck f raw => simp only [wfChunk, fitsV_iff] at h; exact shutdownAck_roundtrip f raw (by omega)
+  | shutdownComplete f raw => simp only [wfChunk, fitsV_iff] at h; exact shutdownComplete_roundtrip f raw (by omega)
+  | cookieEcho f raw => simp only [wfChunk, fitsV_iff] at h; exact cookieEcho_roundtrip f raw (by omega)
+  | cookieAck f raw => simp only [wfChunk, fitsV_iff] at h; exact cookieAck_roundtrip f raw (by omega)
   | reconfig f a b =>
-    simp only [wfChunk, Bool.and_eq_true, fits_iff] at h
+    simp only [wfChunk, Bool.and_eq_true, fitsV_iff] at h
     obtain ⟨⟨h1, h2⟩, h3⟩ := h
     refine reconfig_roundtrip f a b h1 ?_ (by cases b <;> simp_all <;> omega)
     intro x hx; subst hx; simpa using h2
-  | forwardTsn f cum ss => simp only [wfChunk, fits_iff] at h; exact forwardTsn_roundtrip f cum ss h
+  | forwardTsn f cum ss => simp only [wfChunk, fitsV_iff] at h; exact forwardTsn_roundtrip f cum ss h
   | iForwardTsn f cum ss =>
     simp only [wfChunk, Bool.and_eq_true, decide_eq_true_eq, c_maxIForwardTSNStreams] at h
     exact iForwardTsn_roundtrip f cum ss h.1 h.2
